@@ -112,6 +112,14 @@ def run_wait(cases):
             late_end()
         nsys = len(w.log)
         w.waitpid_n, w.eintr_at = 0, set(ret.get("eintr", ()))
+        exited_at = []
+        if ret.get("exitacc"):
+            # the child ends right before the k-th thing the call asks the OS (whatever that is)
+            def ends(pid=pid, st=cfg["status"]):
+                if pid in w.procs and w.procs[pid].state != "Z":
+                    w.exit(pid, status_words()[st])
+                    exited_at.append(w.mono - t0)
+            w.hooks.setdefault(w.acc + ret["exitacc"] - 1, []).append(ends)
 
         def call():
             if proc is not None:
@@ -129,6 +137,7 @@ def run_wait(cases):
         except Exception as ex:  # noqa: BLE001
             got = {"kind": repr(ex)[:60]}
         w.eintr_at = set()
+        w.hooks.clear()
         at = w.mono - t0
         syscalls = len(w.log) - nsys
         sl = [d for (_, d) in w.sleep_log]
@@ -162,7 +171,8 @@ def run_wait(cases):
         badkill = [(kp, ks) for (kp, ks, _) in w.kill_log if kp <= 0 or ks != 0]
         del w.kill_log[:]
         codes = {"exit0": 0, "exit7": 7, "sigkill": -9, "sigterm": -15, "sigrt35": -35}
-        rec = {"kind": cfg["kind"], "exitAt": -1 if cfg["exitAt"] == NEVER else cfg["exitAt"] * U,
+        rec = {"kind": cfg["kind"],
+               "exitAt": int(round(exited_at[0] / H * U)) if exited_at else (-1 if cfg["exitAt"] == NEVER else cfg["exitAt"] * U),
                "timeout": -1 if to == NONE else (-2 if to == NEG else to * U),
                "expcode": codes[cfg["status"]], "out": got["kind"] if got["kind"] in ("none", "value", "TimeoutExpired", "ValueError") else "other",
                "code": got.get("code", 0), "at": int(round(at / H * U)),
@@ -374,6 +384,11 @@ def check(ctx):
     if not thorough:
         ei = ei[::3]
     judge_wait(ctx, ei, name="wait-eintr")
+    # ... and with the child ending right before the k-th question the call puts to the OS
+    ea = [(dict(c0, exitacc=k), None) for c0, _ in cases
+          if c0["cfg"]["kind"] == "child" and c0["cfg"]["exitAt"] == NEVER and c0["cfg"]["timeout"] not in (NONE, NEG)
+          for k in (1, 2, 3, 4, 5, 6)]
+    judge_wait(ctx, ea if thorough else ea[::2], name="wait-exit-at-access")
     check_wait_procs(ctx, 20000 if thorough else 2500)
     check_popen_live(ctx)
     if thorough:
